@@ -56,6 +56,7 @@ static const char *nshape(const fcase_t *c) {
         if (d->conv == '[') return "after-unknown-conversion";
         if (d->conv != 'n') { if (d->conv != '%' && d->conv != 'N') seen = 1; else seen = seen ? 1 : 2; continue; }
         if (d->esc > 0) return "after-escaped-percent";
+        if (d->len >= LEN_BIGZ) return "glibc-length-modifier";
         if (d->len != LEN_NONE) return "length-modifier";
         if (d->flags || d->width != -1 || d->prec != -1) return "flags-or-width";
         if (i > 0 && seen == 1) return "after-other-directive";
@@ -222,7 +223,7 @@ static void exec_c11(const void *k, res_t *r, const runcfg_t *cfg) {
     /* %lc with a null wide character: C defines it through %ls of {0, 0} (prints nothing), glibc writes a NUL byte: no reference */
     for (i = 0; i < c->nd; i++) if (c->d[i].conv == 'C' && c->d[i].vsel % 6 == 5) { res_label(r, "lc-NUL(no agreed reference)"); return; }
     /* "%Ld": undefined in ISO C (glibc reads it as ll), the library rejects it: nothing to compare */
-    for (i = 0; i < c->nd; i++) if (c->d[i].len == LEN_BIGL && strchr("diuxXo", c->d[i].conv)) { res_label(r, "L-with-integer(not ISO C)"); return; }
+    for (i = 0; i < c->nd; i++) if (c->d[i].len >= LEN_BIGL && strchr("diuxXo", c->d[i].conv)) { res_label(r, "L/Z/q-with-integer(not ISO C)"); return; }
     cls = c11_class(c);
     ename = e->sink == SK_BUF ? "buffer" : "stream";
     fits = e->sink != SK_BUF || (size_t)FX.ref_len < FX.dmax;
